@@ -176,11 +176,30 @@ pub fn p_built<T: serde::Serialize, E: std::fmt::Display>(case: u64, probe: u64,
 /// A third map type for the map-type setting (C14): the documented
 /// requirements are is_empty, two generic parameters, Default + Clone + Debug
 /// + Serialize + Deserialize.
-#[derive(Clone, Debug, Default, PartialEq, serde::Serialize, serde::Deserialize)]
+#[derive(Clone, Debug, PartialEq, Eq, serde::Serialize, serde::Deserialize)]
 #[serde(transparent)]
 pub struct MyMap<K: Ord, V>(pub std::collections::BTreeMap<K, V>);
+impl<K: Ord, V> Default for MyMap<K, V> {
+    fn default() -> Self {
+        MyMap(std::collections::BTreeMap::new())
+    }
+}
 impl<K: Ord, V> MyMap<K, V> {
     pub fn is_empty(&self) -> bool {
         self.0.is_empty()
+    }
+}
+
+/// Hand-written types used as replacement / conversion targets (C14).
+#[derive(Clone, Debug, PartialEq, serde::Serialize, serde::Deserialize)]
+pub struct ReplT {
+    pub q: i64,
+}
+#[derive(Clone, Debug, PartialEq, serde::Serialize, serde::Deserialize)]
+#[serde(transparent)]
+pub struct Num(pub f64);
+impl std::fmt::Display for Num {
+    fn fmt(&self, f: &mut std::fmt::Formatter<'_>) -> std::fmt::Result {
+        self.0.fmt(f)
     }
 }
